@@ -13,9 +13,42 @@ def replay(d):
     return PC.replay_pipeline(d, _row)
 
 
+def _without_post_processing(reaction):
+    """the same reaction through the real pipeline with Balancer.__post_process disabled"""
+    from synrbl import Balancer
+    orig = Balancer._Balancer__post_process
+    Balancer._Balancer__post_process = lambda self, reactions: None
+    try:
+        P._BAL.clear()
+        return P.rebalance([reaction])
+    finally:
+        Balancer._Balancer__post_process = orig
+        P._BAL.clear()
+
+
+def _row_classified(inp, row):
+    bad = P.row_c01(row)
+    if bad is None:
+        return None
+    # known mechanism: the reagent-template overwrite of an already solved row by Balancer.__post_process
+    rows = _without_post_processing(inp)
+    if len(rows) == 1 and P.row_c01(rows[0]) is None and rows[0].get("solved"):
+        return "POSTPROCESS " + bad
+    return bad
+
+
 def check(run):
     run.deductive(PC.MODULES)
     c07_native.data_and_bounded(run)
-    PC.bounded_rows(run, "solved-rows-balanced", _row)
+    pairs, _ = PC.bounded_rows(run, "solved-rows-balanced", lambda i, r: None)
+    fails = []
+    for inp, row in pairs:
+        bad = _row_classified(inp, row)
+        if bad:
+            fails.append(({"kind": "pipeline", "reaction": inp, "cfg": {}}, bad))
+    pp = [f for f in fails if f[1].startswith("POSTPROCESS")]
+    other = [f for f in fails if not f[1].startswith("POSTPROCESS")]
+    run.bounded("post-process-overwrite", "rows of the runs above whose imbalance disappears when Balancer.__post_process is disabled", 0, 0, pp[:1], False)
+    run.bounded("solved-rows-balanced:oracle", "independent balance oracle on every solved row of the runs above", len(pairs), len(pairs), other[:8], False)
     run.trust("assumed stage contracts (preprocess, RuleBasedMethod.run, ensemble_mcs, find_graph_dict, data_decomposer, run_parallel, "
               "check_carbon_balance) are monitored at run time on every pipeline run of the bounded part, not proved")
